@@ -1,0 +1,31 @@
+//go:build verif
+
+// Contracts for the deductive verifier in /verif (gvc). This file contains comments only:
+// it adds no code to the package, with or without the "verif" build tag.
+
+package sqlite
+
+//@ import "context"
+//@ import "ariga.io/atlas/sql/migrate"
+//@ import "ariga.io/atlas/sql/schema"
+
+// ---------------------------------------------------------------------------------------
+// C14: the SQLite dev database is refused unless it is empty
+
+//@ spec func gvcEmptyRealm(r *schema.Realm) bool {
+//@ spec 	return r == nil || (len(r.Schemas) == 1 && r.Schemas[0].Name == mainFile && len(r.Schemas[0].Tables) == 0)
+//@ spec }
+
+//@ func (d *Driver) Snapshot(ctx context.Context) (restore migrate.RestoreFunc, err error)
+//@   requires d != nil && d.Inspector != nil && GvcIs[*inspect](d.Inspector)
+//@   modifies schema.GvcInspected
+//@   ensures accepted-only-if-empty: err == nil ==> restore != nil && gvcEmptyRealm(schema.GvcInspected)
+//@   ensures refusal-is-not-clean-error: err != nil && schema.GvcInspected != old(schema.GvcInspected) ==> restore == nil
+
+//@ func (d *Driver) CheckClean(ctx context.Context, revT *migrate.TableIdent) (err error)
+//@   requires d != nil && d.Inspector != nil
+//@   modifies schema.GvcInspected
+//@   ensures clean-means-at-most-the-revision-table: err == nil ==> len(schema.GvcInspected.Schemas) == 0 ||
+//@           (len(schema.GvcInspected.Schemas) == 1 && schema.GvcInspected.Schemas[0].Name == mainFile &&
+//@            (len(schema.GvcInspected.Schemas[0].Tables) == 0 ||
+//@             (len(schema.GvcInspected.Schemas[0].Tables) == 1 && revT != nil && schema.GvcInspected.Schemas[0].Tables[0].Name == revT.Name)))
